@@ -457,13 +457,16 @@ def replay_seq(ctx, rng, binp, only=None):
         handle_dead(ctx, binp, "TestX09Seq", scn_file, scns, dead, "seq")
     # split the traces into chunk files for TLC without holding them in memory
     per = 12000
-    files, cur, n_lines, done, hits, sample = [], None, 0, set(), {}, []
+    files, cur, n_lines, done, hits, sample, gaveup = [], None, 0, set(), {}, [], 0
     for o in outs:
         with open(o) as f:
             for line in f:
                 if not line.strip():
                     continue
                 l = json.loads(line)
+                if l["e"] == "giveup":
+                    gaveup += 1
+                    continue
                 if l["e"] == "reset":
                     done.add(l["scn"])
                     if cur is None or files[-1][1] >= per:
@@ -484,7 +487,9 @@ def replay_seq(ctx, rng, binp, only=None):
         cur.close()
     if not files:
         raise vlib.Inconclusive("driver TestX09Seq produced no trace")
-    if not dead and len(done) != len(scns):
+    if gaveup:
+        ctx.notes.append("%d driver shard(s) stopped early after 8 scenarios in which a call never returned (%d of %d scenarios replayed)" % (gaveup, len(done), len(scns)))
+    if not dead and not gaveup and len(done) != len(scns):
         raise vlib.Inconclusive("driver TestX09Seq replayed %d of %d scenarios" % (len(done), len(scns)))
     ctx.log("TestX09Seq: %d scenarios replayed, %d lines" % (len(done), n_lines))
     return dict(scns=scns, gs=gs, gt=gt, classes=classes, files=files, n_lines=n_lines, done=done, hits=hits, sample=sample)
@@ -640,10 +645,13 @@ def replay_conc(ctx, rng, binp, only=None):
     outs, dead = run_shards(ctx, binp, "TestX09Conc", scn_file, "conc", shards, extra_env={"VERIF_REPS": reps})
     if dead:
         handle_dead(ctx, binp, "TestX09Conc", scn_file, scns, dead, "conc")
-    hist, lines = [], 0
+    hist, lines, gaveup = [], 0, 0
     for o in outs:
         cur = None
         for l in vlib.read_ndjson(o):
+            if l["e"] == "giveup":
+                gaveup += 1
+                continue
             if l["e"] == "reset":
                 cur = []
                 hist.append(cur)
@@ -661,7 +669,9 @@ def replay_conc(ctx, rng, binp, only=None):
         ctx.notes.append("%d of %d concurrent histories dropped: quiescence was not reached within 10 s (machine load)" % (len(noq), len(noq) + len(hist)))
     if len(noq) > max(3, len(hist) // 20):
         raise vlib.Inconclusive("too many concurrent histories without quiescence (%d)" % len(noq))
-    if not dead and len(hist) + len(noq) != len(scns) * reps:
+    if gaveup:
+        ctx.notes.append("%d concurrent driver shard(s) stopped early after 8 histories in which a call never returned" % gaveup)
+    if not dead and not gaveup and len(hist) + len(noq) != len(scns) * reps:
         raise vlib.Inconclusive("driver TestX09Conc recorded %d of %d histories" % (len(hist) + len(noq), len(scns) * reps))
     ctx.log("TestX09Conc: %d histories, %d lines" % (len(hist), lines))
     return dict(scns=scns, gs=gs, gt=gt, classes=classes, hist=hist, lines=lines)
